@@ -125,4 +125,15 @@ REGISTRY = {
         "level_note": "Trusted: Coq kernel/vm_compute, hand-written model (checked by correspondence), harness. No axioms.",
         "explanation": "C16_* proved; correspondence on sequential links and reorder.",
     },
+    "C19": {
+        "corr": "C19",
+        "trusted": [
+            "modelled: Scheduler::local_block_info / remote_block_info (replicas and global ids), build_execution_graph (incl. the forward-edge fallback), NetworkTopology::connect/build (demultiplexer port numbering); job graph (blocks, replication, edges, flags) taken from the scheduler's own records through the hook",
+            "hook: StreamContext::verif_execution_graph builds graph and addresses without starting workers (add-only, cfg feature verif)",
+        ],
+        "assumptions": ["base_port + offset does not overflow u16 (explicit debug panic in the implementation, outside the model)"],
+        "level_text": "Proof: placement, wiring and socket numbering are modelled as pure functions of (deployment, job graph) — no host identity, no enumeration order — and proved: stated replica counts per host, global ids bijective, forward edges exactly one consumer (same-index if present), all-to-all otherwise, ports total / collision-free / dependent on the set of demultiplexers only. Tied to the code by building random jobs (diamonds, loops, routes, multi-sink) under local and 1..4-host heterogeneous deployments, once per host id, dumping each host's graph and comparing with the model inside Coq.",
+        "level_note": "Trusted: Coq kernel/vm_compute, hand-written model (checked by correspondence), harness, dump hook. No axioms.",
+        "explanation": "C19_* proved; per-host dumps compared with the model and with each other.",
+    },
 }
